@@ -247,7 +247,7 @@ func Supervise(o SuperOpts) int {
 	ncpu := runtime.NumCPU()
 	sem := make(chan struct{}, ncpu)
 	var wg sync.WaitGroup
-	var mu sync.Mutex
+	var mu, acq sync.Mutex
 	infra := []string{}
 	raceReports := 0
 	for i, b := range batches {
@@ -258,9 +258,13 @@ func Supervise(o SuperOpts) int {
 		}
 		go func(i int, b Batch, w int) {
 			defer wg.Done()
+			// all tokens of a weighted batch are taken by one goroutine at a time: two batches
+			// that each hold a part of their tokens would wait for each other for ever
+			acq.Lock()
 			for k := 0; k < w; k++ {
 				sem <- struct{}{}
 			}
+			acq.Unlock()
 			defer func() {
 				for k := 0; k < w; k++ {
 					<-sem
